@@ -46,6 +46,8 @@ def e2_slices():
     glr = slicer.read(GLRPARSER)
     blk = slicer.block_after(glr, r"fn find_lookaheads\s*\(", r"if !tokens\.is_empty\(\)", "find_lookaheads/selection")
     out["glr_select"] = ("{\nif !tokens.is_empty() " + blk + "\ntokens\n}\n", GLRPARSER)
+    sp = slicer.region(glr, r"fn reducer\s*\(", r"let span = if path\.parents\.is_empty\(\)", r"\n                        \};", "reducer/solution span")
+    out["glr_span"] = ("{\n" + sp + "\nspan\n}\n", GLRPARSER)
     b = slicer.read(BUILDER)
     out["meta_inherit"] = (
         "{\n" + slicer.region(b, r"fn extract_productions_and_symbols\s*\(", r"// Inherit meta-data from Rule\.", r"new_production\.nopse = true;\s*\}", "extract_productions_and_symbols/meta inheritance") + "\n}\n",
